@@ -258,7 +258,9 @@ def run(tier, seed, replay=None):
         return res.finish()
     if replay:
         case = json.load(open(replay)).get("case", "")
-        if case.split("\t")[4:5] == ["FREE"]:      # a history under natural timing
+        if case.split("\t")[3:4] == ["contend"]:
+            rc, out = sh("%s contend" % hbin, timeout=300)
+        elif case.split("\t")[4:5] == ["FREE"]:      # a history under natural timing
             rc, out = sh("%s free | %s check" % (hbin, runner), stdin=("\n".join(header + ["\t".join(case.split("\t")[:4])] * 3) + "\n").encode(), timeout=120)
         else:
             rc, out = sh("%s force | %s check" % (hbin, runner), stdin=("\n".join(header + [case]) + "\n").encode(), timeout=120)
@@ -303,6 +305,13 @@ def run(tier, seed, replay=None):
 
     free_m, free_total = run_free(hbin, runner, header, 120 if tier == "quick" else 4000, seed)
     mism += free_m
+    # a second thread reading the breakpoint set (list_breakpoints(&self)) while a long session runs
+    for _ in range(1 if tier == "quick" else 5):
+        crc, cout = sh("%s contend" % hbin, timeout=300)
+        cm = parse_mismatch_lines(cout)
+        if crc != 0 or "#RUNNER" not in cout:
+            cm.append({"kind": "harness", "case": "contend", "impl": "c17 contend failed rc=%s" % crc, "expected": cout[-600:]})
+        mism += cm
     spec_m = [m for m in mism if m["kind"] == "spec"]
     model_m = [m for m in mism if m["kind"] == "model"]
     other_m = [m for m in mism if m["kind"] not in ("spec", "model")]
